@@ -62,6 +62,14 @@ pub fn exec(case: &Value) -> Value {
                  ("add", d(aa + bb)), ("sub", d(aa - bb)), ("neg", d(-aa)), ("mul", d(aa * k)), ("div", d(aa / k)),
                  ("min", d(lo)), ("max", d(hi)), ("clamp", d(cc.clamp(lo, hi)))]
         }
+        "arithx" => {
+            // scaling by tiny and huge powers of two: a * k and a / k act on the magnitude (exactly, as
+            // long as the result is a normal number), whatever the size of k
+            let a = rads(fb(case, "ab"));
+            let j = gi(case, "j") as i32;
+            let k = 2f32.powi(j) * if gi(case, "neg") == 1 { -1.0 } else { 1.0 };
+            vec![("ar", f32_rec(a.to_rads())), ("mulr", f32_rec((a * k).to_rads())), ("divr", f32_rec((a / k).to_rads()))]
+        }
         "pyth" => {
             // the angle whose cosine and sine are cx/k, sy/k
             let (cx, sy) = (gi(case, "cx") as f32, gi(case, "sy") as f32);
@@ -159,6 +167,13 @@ pub fn gen(args: &Args, out: &mut dyn Write) {
         if i % 16 == 1 {
             let u = *rng.pick(&["deg", "rad", "turn"]);
             emit(out, json!({"op": "convx", "u": u, "kx": rng.range(-126, 126), "neg": rng.below(2)}));
+        }
+        if i % 8 == 3 {
+            // (the angle itself of ordinary size or tiny; products and quotients stay within 2^+-100)
+            let ea = *rng.pick(&[0i64, 0, -20, -60]);
+            let j = rng.range(-(100 - ea.abs()), 100 - ea.abs());
+            let a = ((rng.unit_f64() + 0.5) * 2f64.powi(ea as i32)) as f32 * if rng.chance(1, 2) { -1.0 } else { 1.0 };
+            emit(out, json!({"op": "arithx", "ab": hx(a), "j": j, "neg": rng.below(2)}));
         }
         let f = |rng: &mut Rng| ((rng.unit_f64() - 0.5) * 2000.0) as f32;
         emit(out, json!({"op": "arith", "ab": hx(f(&mut rng)), "bb": hx(f(&mut rng)), "cb": hx(f(&mut rng)),
